@@ -239,7 +239,20 @@ func c10Value(r *rand.Rand, name string) any {
 		if r.IntN(6) == 0 { // a text that itself starts with a machine-readable prefix
 			msg = vk.Pick(r, c10Prefixes[1:]) + msg
 		}
-		return mocrelay.NewServerOKMsg(c10Hex(r, 64), r.IntN(2) == 0, prefix, msg)
+		id := c10Hex(r, 64)
+		if r.IntN(8) == 0 {
+			// the codec takes any string as the event id (hex is the gate's business): exactly 64
+			// bytes with characters that need escaping, mostly with nothing else to say
+			b := []byte(id)
+			for k := 1 + r.IntN(3); k > 0; k-- {
+				b[r.IntN(64)] = "\"\\\n\x00\x1f/<&\x7f"[r.IntN(9)]
+			}
+			id = string(b)
+			if r.IntN(3) != 0 {
+				prefix, msg = "", ""
+			}
+		}
+		return mocrelay.NewServerOKMsg(id, r.IntN(2) == 0, prefix, msg)
 	case "ServerAuthMsg":
 		return &mocrelay.ServerAuthMsg{Challenge: c10Text(r)}
 	case "ServerCountMsg":
